@@ -153,6 +153,16 @@ func c08Shared() {
 		c08Scripts = append(c08Scripts, eq.Script())
 		c08Exprs = append(c08Exprs, jp.R().C("c").C("e").Filter(eq))
 	}
+	// paths written as Go literals keep the caller's raw members (a plain int in a Union, ...)
+	c08Exprs = append(c08Exprs,
+		jp.Expr{jp.Root('$'), jp.Child("b"), jp.Union{0, 2}},
+		jp.Expr{jp.Root('$'), jp.Union{"a", "c"}, jp.Wildcard('*')},
+		jp.Expr{jp.Root('$'), jp.Child("b"), jp.Slice{0, 2}},
+		jp.Expr{jp.Root('$'), jp.Descent('.'), jp.Child("d")},
+		jp.Expr{jp.Root('$'), jp.Child("c"), jp.Child("e"), jp.Union{int64(1), 0}, jp.Child("x")},
+		jp.Expr{jp.Root('$'), jp.Child("b"), jp.Nth(1)},
+		jp.Expr{jp.Root('$'), jp.Child("b"), jp.Union{int8(1), uint(2), 0}},
+	)
 	c08StructExprs = c08StructExprs[:0:0]
 	for _, s := range []string{"$.In.S", "$.L[*].N", "$.tg", "$..N", "$['A','B']", "$.Ptr.F", "$.L[?(@.N > 0)].S", "$.Any.k.S", "$.*", "$.L[-1]", "$.In['S','F']", "$..[?(@.F > 1)]"} {
 		c08StructExprs = append(c08StructExprs, jp.MustParseString(s))
@@ -196,6 +206,29 @@ var c08Menu = []string{
 	// shared paths over the caller's own structs; recomposing from typed (not parsed) sources
 	"jp.Get(struct)", "jp.First(struct)", "jp.Has(struct)", "jp.Set(struct)", "jp.Walk(struct)", "jp.Locate(struct)", "jp.Modify(struct)",
 	"alt.Recompose(typed maps)", "alt.Recompose(gen)", "Recomposer.Recompose(typed maps)", "alt.Recompose(slices)",
+	// one of many struct types (whatever is keyed, hashed or cached per type meets many types)
+	"alt.Decompose(many types)", "oj.JSON(many types)", "sen.String(many types)", "alt.Generify(many types)",
+}
+
+// c08ManyTypes: 64 struct types of the same shape with different field names.
+var c08ManyTypes = func() []reflect.Type {
+	var ts []reflect.Type
+	for i := 0; i < 64; i++ {
+		ts = append(ts, reflect.StructOf([]reflect.StructField{
+			{Name: fmt.Sprintf("N%d", i), Type: reflect.TypeOf(0)},
+			{Name: fmt.Sprintf("S%d", i), Type: reflect.TypeOf("")},
+			{Name: "In", Type: reflect.TypeOf(zInner{})},
+		}))
+	}
+	return ts
+}()
+
+func manyTypesValue(a, b int) any {
+	rv := reflect.New(c08ManyTypes[b%len(c08ManyTypes)])
+	rv.Elem().Field(0).SetInt(int64(a))
+	rv.Elem().Field(1).SetString(fmt.Sprintf("s%d", a))
+	rv.Elem().Field(2).Set(reflect.ValueOf(zInner{S: "in", N: a}))
+	return rv.Interface()
 }
 
 type failingMarshaler struct{ N int }
@@ -285,7 +318,7 @@ func drawOp08(t *rapid.T, th *theme08) *op08 {
 	switch {
 	case o.Fn == "oj.Marshal(unencodable)":
 		o.Val = make(chan int)
-	case strings.Contains(o.Fn, "failing") || strings.Contains(o.Fn, "panicking") || strings.Contains(o.Fn, "reader error") || strings.Contains(o.Fn, "callback") || strings.Contains(o.Fn, "empty") || strings.Contains(o.Fn, "big") || strings.Contains(o.Fn, "invalid") || strings.Contains(o.Fn, "ints") || o.Fn == "alt.GenAlter(struct)" || o.Fn == "alt.Alter(struct)" || strings.Contains(o.Fn, "keeper") || strings.HasSuffix(o.Fn, "(struct)") && strings.HasPrefix(o.Fn, "jp.") || strings.HasPrefix(o.Fn, "alt.Recompose(") || strings.HasPrefix(o.Fn, "Recomposer."):
+	case strings.Contains(o.Fn, "failing") || strings.Contains(o.Fn, "panicking") || strings.Contains(o.Fn, "reader error") || strings.Contains(o.Fn, "callback") || strings.Contains(o.Fn, "empty") || strings.Contains(o.Fn, "big") || strings.Contains(o.Fn, "invalid") || strings.Contains(o.Fn, "ints") || o.Fn == "alt.GenAlter(struct)" || o.Fn == "alt.Alter(struct)" || strings.Contains(o.Fn, "keeper") || strings.HasSuffix(o.Fn, "(struct)") && strings.HasPrefix(o.Fn, "jp.") || strings.HasPrefix(o.Fn, "alt.Recompose(") || strings.HasPrefix(o.Fn, "Recomposer.") || strings.HasSuffix(o.Fn, "(many types)"):
 	case strings.HasPrefix(o.Fn, "oj.JSON"), strings.HasPrefix(o.Fn, "oj.Marshal"), strings.HasPrefix(o.Fn, "oj.Write"), strings.HasPrefix(o.Fn, "sen.String"), o.Fn == "sen.Bytes", o.Fn == "sen.Write", strings.HasPrefix(o.Fn, "pretty."), o.Fn == "alt.Decompose", o.Fn == "alt.Generify(struct)":
 		// (pretty.WriteJSON included)
 		o.Val, o.Desc = drawVal08(t)
@@ -619,6 +652,15 @@ func (o *op08) exec() (r ret08) {
 		src := []any{map[string]int{"a": o.A, "b": o.B}, map[string]any{"c": o.A + o.B}, map[string]int{fmt.Sprintf("k%d", o.B): 1}}
 		_, err := alt.Recompose(src, &out)
 		r.canon = fmt.Sprintf("%v %v", err != nil, derefAll(reflect.ValueOf(out)))
+	case "alt.Decompose(many types)":
+		r.canon = ref.Exact(alt.Decompose(manyTypesValue(o.A, o.B), opts(o.O)))
+	case "oj.JSON(many types)":
+		r.canon = oj.JSON(manyTypesValue(o.A, o.B), opts(o.O))
+	case "sen.String(many types)":
+		r.canon = sen.String(manyTypesValue(o.A, o.B), opts(o.O))
+	case "alt.Generify(many types)":
+		g := alt.Generify(manyTypesValue(o.A, o.B), opts(o.O))
+		r.canon = ref.Exact(nodeAny(g))
 	case "alt.Generify(struct)":
 		g := alt.Generify(o.Val, opts(o.O))
 		r.canon = ref.Exact(nodeAny(g))
